@@ -439,4 +439,6 @@ def summary(w, stall):
         'loop_exceptions': list(w.loop_exceptions),
         'now': w.now,
         'writes_after_close': sum(1 for rec in w.tr.log if rec[1] == 'write-after-close'),
+        'max_send_delay': _itime(w.session.max_send_delay),
+        'processing_timeout': _itime(w.session.processing_timeout),
     }
